@@ -105,7 +105,7 @@ OptimisticLock::PrepareRead()  //
         DBGROUP_VERIF_POINT(kPrepareFallback, lock);
         return (*cur & kXLock) == kNoLocks
                && ((*cur & kAllLockMask)
-                   || lock->compare_exchange_weak(*cur, *cur + kSLock, kRelaxed, kRelaxed));
+                   || lock->compare_exchange_weak(*cur, *cur + kSLock, kAcquire, kRelaxed));
       },
       &lock_, &cur);
 
@@ -171,13 +171,13 @@ OptimisticLock::LockX()  //
 void
 OptimisticLock::UnlockS()
 {
-  lock_.fetch_sub(kSLock, kRelaxed);
+  lock_.fetch_sub(kSLock, kRelease);
 }
 
 void
 OptimisticLock::UnlockSIX()
 {
-  lock_.fetch_xor(kSIXLock, kRelaxed);
+  lock_.fetch_xor(kSIXLock, kRelease);
 }
 
 void
@@ -328,7 +328,7 @@ OptimisticLock::OptGuard::TryLockS()  //
         DBGROUP_VERIF_POINT(kAdmitTryS, lock);
         return (*cur & kXLock) == kNoLocks
                && ((*cur & kVersionMask) != ver
-                   || lock->compare_exchange_weak(*cur, *cur + kSLock, kRelaxed, kRelaxed));
+                   || lock->compare_exchange_weak(*cur, *cur + kSLock, kAcquire, kRelaxed));
       },
       &(dest_->lock_), &cur, ver_);
 
@@ -348,7 +348,7 @@ OptimisticLock::OptGuard::TryLockSIX()  //
         DBGROUP_VERIF_POINT(kAdmitTrySIX, lock);
         return (*cur & kXMask) == kNoLocks
                && ((*cur & kVersionMask) != ver
-                   || lock->compare_exchange_weak(*cur, *cur | kSIXLock, kRelaxed, kRelaxed));
+                   || lock->compare_exchange_weak(*cur, *cur | kSIXLock, kAcquire, kRelaxed));
       },
       &(dest_->lock_), &cur, ver_);
 
@@ -368,7 +368,7 @@ OptimisticLock::OptGuard::TryLockX()  //
         DBGROUP_VERIF_POINT(kAdmitTryX, lock);
         return (*cur & kAllLockMask) == kNoLocks
                && ((*cur & kXAndVersionMask) != ver
-                   || lock->compare_exchange_weak(*cur, *cur | kXLock, kRelaxed, kRelaxed));
+                   || lock->compare_exchange_weak(*cur, *cur | kXLock, kAcquire, kRelaxed));
       },
       &(dest_->lock_), &cur, ver_);
 
